@@ -25,6 +25,9 @@ type Deriver struct {
 	// ElementOpaque: x[<constant>] is treated as an atom — deriving from one fixed element of a
 	// collection does not count as deriving from the collection.
 	ElementOpaque bool
+	// Barrier: sub-expressions for which it returns true are not descended into (sanitiser calls
+	// in taint rules).
+	Barrier func(ast.Expr) bool
 }
 
 // NewPureDeriver follows assignments only (no mutation through call arguments or receivers):
@@ -153,6 +156,9 @@ func (d *Deriver) derives(e ast.Expr, src func(ast.Expr) bool, seen map[types.Ob
 		x, ok := n.(ast.Expr)
 		if !ok {
 			return true
+		}
+		if d.Barrier != nil && d.Barrier(x) {
+			return false
 		}
 		if src(x) {
 			found = true
